@@ -148,7 +148,35 @@ fn run_case(data: &[u8], sched: &[usize], ops: &[Op]) -> Option<(String, Value)>
                 ))
             },
         };
-        let Some(want) = want else { continue };
+        let Some(want) = want else {
+            // After a failed read the position is unspecified, so the model no longer tells how
+            // much is left. But the adapter itself does: drain it byte by byte and count. An
+            // end-of-input report for k bytes although at least k bytes could still be read is
+            // "missing data that is actually available".
+            if let (Op::CheckEor(k), Out::ErrEof | Out::ErrInvalid | Out::ErrOther) = (op, &got) {
+                let avail = guard(|| {
+                    let mut r = 0usize;
+                    while adapter.read_u8().is_ok() {
+                        r += 1;
+                    }
+                    r
+                });
+                match avail {
+                    Ok(r) if r >= *k && *k > 0 => {
+                        return Some((
+                            "false-eof|CheckEor-after-failed-read".to_string(),
+                            json!({"content_len": data.len(), "content": hex(&data[..data.len().min(48)]), "schedule": &sched[..sched.len().min(16)],
+                                   "ops": format!("{:?}", &ops[..=i]), "failing_op": i, "asked": k, "still_readable": r}),
+                        ))
+                    },
+                    Ok(_) => return None,
+                    Err(p) => {
+                        return Some((format!("adapter-{}", p.sig()), json!({"content_len": data.len(), "ops": format!("{:?}", &ops[..=i]), "phase": "drain"})))
+                    },
+                }
+            }
+            continue;
+        };
         let ok = match op {
             // one-sided: the adapter may be optimistic, but must not report missing data that
             // is actually available
@@ -255,6 +283,16 @@ pub fn exhaustive(args: &Args) {
                     ops.push(Op::Peek);
                     ops.push(read_op_for(1 + flavour, flavour));
                     ops.push(Op::HasMore);
+                    if flavour == 0 && reads.len() >= 2 {
+                        // over-long read after the first read, then ask for what is really left
+                        let left = len - reads[0];
+                        let mut ops2 = vec![read_op_for(reads[0], 0), Op::Slice(left + 1 + reads[1]), Op::CheckEor(left), Op::HasMore];
+                        ops2.insert(1, Op::Peek);
+                        rep.case(format!("overlong{sched:?}{reads:?}").as_bytes(), true);
+                        if let Some((sig, d)) = run_case(&data, &sched_or_one, &ops2) {
+                            rep.violation(&sig, d);
+                        }
+                    }
                     let key = format!("{sched:?}{reads:?}{flavour}");
                     rep.case(key.as_bytes(), len > 0);
                     if let Some((sig, d)) = run_case(&data, &sched_or_one, &ops) {
